@@ -159,8 +159,19 @@ class SccContext:
       if not previous_caption.is_empty():
         self.div.push_child(previous_caption.to_paragraph(self.div.get_doc()))
 
+  def indent_cursor(self, indent: int, time_code: SmpteTimeCode):
+    """Move the cursor of the caption being processed to the right"""
+    if self.get_caption_to_process() is None:
+      LOGGER.warning("Tab offset without caption at %s", time_code)
+      return
+
+    self.get_caption_to_process().indent_cursor(indent)
+
   def backspace(self):
     """Move the cursors in a column to the left"""
+    if self.get_caption_to_process() is None:
+      return
+
     self.get_caption_to_process().get_current_text().backspace()
     (row, indent) = self.get_caption_to_process().get_cursor()
     self.get_caption_to_process().set_cursor_at(row, max(indent - 1, 0))
@@ -381,13 +392,13 @@ class SccContext:
       self.new_buffered_caption()
 
     elif control_code is SccControlCode.TO1:
-      self.get_caption_to_process().indent_cursor(1)
+      self.indent_cursor(1, time_code)
 
     elif control_code is SccControlCode.TO2:
-      self.get_caption_to_process().indent_cursor(2)
+      self.indent_cursor(2, time_code)
 
     elif control_code is SccControlCode.TO3:
-      self.get_caption_to_process().indent_cursor(3)
+      self.indent_cursor(3, time_code)
 
     elif control_code is SccControlCode.CR:
       # Roll the displayed caption up one row (Roll-Up)
